@@ -354,6 +354,10 @@ def _lexical_variants(tok):
     if len(parts) == 1 and re.match(br'^[BN]?[A-Z][0-9]+(,[0-9]+)?$', parts[0]):
         t = re.sub(br'^([BN]?[A-Z])', br'\1 ', parts[0]).replace(b',', b', ')
         out.append((name + '/inner-blank', [t], prims, kinds))
+    # the same for a relative move: a blank between M and the sign that makes it relative
+    if len(parts) == 1 and re.match(br'^[BN]{0,2}M[+-][0-9]+,[+-]?[0-9]+$', parts[0]):
+        t = re.sub(br'^([BN]{0,2}M)', br'\1 ', parts[0]).replace(b',', b' , ')
+        out.append((name + '/inner-blank', [t], prims, kinds))
     # trailing separator
     if not (isinstance(parts[-1], bytes) and parts[-1].endswith(b';')):
         out.append((name + '/;', parts + [b';'], prims, kinds))
